@@ -1723,8 +1723,10 @@ namespace adept {
     typename internal::enable_if<MyRank == 2, Array<2,Type,IsActive> >::type
     my_T() {
       // Transpose 2D array: create output array initially as link
-      // to input array
-      Array<2,Type,IsActive> out(*this);
+      // to input array (constructing an Array from *this would copy
+      // the data)
+      Array<2,Type,IsActive> out(data_, 0, dimensions(), offset(),
+				  internal::GradientIndex<IsActive>::get());
       // Swap dimensions
       return out.in_place_transpose();
     }
@@ -1732,8 +1734,10 @@ namespace adept {
     typename internal::enable_if<MyRank == 2, const Array<2,Type,IsActive> >::type
     my_T() const {
       // Transpose 2D array: create output array initially as link
-      // to input array
-      Array<2,Type,IsActive> out(const_cast<FixedArray&>(*this));
+      // to input array (constructing an Array from *this would copy
+      // the data)
+      Array<2,Type,IsActive> out(data_, 0, dimensions(), offset(),
+				  internal::GradientIndex<IsActive>::get());
       // Swap dimensions
       return out.in_place_transpose();
     }
